@@ -41,6 +41,7 @@ var (
 	yieldOn  bool
 	yieldPm  uint64
 	yieldRnd uint64
+	pauses   = map[string]time.Duration{}
 )
 
 func init() {
@@ -54,6 +55,16 @@ func init() {
 		if i := strings.LastIndex(d, ":"); i > 0 {
 			dieSite = d[:i]
 			dieK, _ = strconv.ParseUint(d[i+1:], 10, 64)
+		}
+	}
+	// VERIF_PAUSE=site:microseconds[,site:microseconds...]: the goroutine passing the site sleeps that long, every time
+	// (widens one chosen window of an interleaving instead of perturbing everything a little)
+	if p := os.Getenv("VERIF_PAUSE"); p != "" {
+		for _, part := range strings.Split(p, ",") {
+			if i := strings.LastIndex(part, ":"); i > 0 {
+				us, _ := strconv.ParseUint(part[i+1:], 10, 64)
+				pauses[part[:i]] = time.Duration(us) * time.Microsecond
+			}
 		}
 	}
 	if y := os.Getenv("VERIF_YIELD"); y != "" {
@@ -159,6 +170,9 @@ func at(site string, a, b uint64) {
 	}
 	if g := gate.Load(); g != nil {
 		(*g)(site, a, b)
+	}
+	if d, ok := pauses[site]; ok {
+		time.Sleep(d)
 	}
 	if yieldOn && y < yieldPm {
 		if y%3 == 0 {
